@@ -18,7 +18,8 @@ RULE = ("histories of one UDP server endpoint driven by 1..50 scripted peers (re
 
 WRAPS = ["coap_ticks", "coap_socket_send", "coap_socket_recv",
          "coap_malloc_type", "coap_realloc_type", "coap_free_type",
-         "coap_session_reference_lkd", "coap_session_release_lkd", "coap_endpoint_get_session"]
+         "coap_session_reference_lkd", "coap_session_release_lkd", "coap_endpoint_get_session",
+         "coap_socket_read", "coap_socket_write"]
 
 K_TEARDOWN_REF = "F-C12-2"
 
@@ -63,7 +64,10 @@ def evaluate(model, drv, lines, env=None):
             llines.append("selog")
             res.append(r)
             continue
-        timeout, maxidle = int(f[2]), int(f[3])
+        if f[0] == "st":
+            timeout, maxidle = int(f[2]), 0
+        else:
+            timeout, maxidle = int(f[2]), int(f[3])
         ml, exp, _ = se_trace.translate(toks, timeout, maxidle)
         r["expect"] = exp
         r["model_line"] = ml
@@ -164,7 +168,7 @@ def replay_text(r, shrunk=None):
 def shrink(model, drv, r, env=None):
     """delta-debug the op list while the same kind of failure persists"""
     f = r["line"].split()
-    npre = 2 if f[0] == "sc" else 4
+    npre = {"sc": 2, "st": 3}.get(f[0], 4)
     prefix, ops = f[:npre], f[npre:]
     tags = set(t for t, _ in r["bad"])
     crash = bool(r["crash"])
@@ -261,6 +265,13 @@ class Sink:
                     tot[k] = tot.get(k, 0) + fa.get(k, 0)
                 if m.get("kind") == "client":
                     run.hist("client_slots", m["slots"])
+            elif res["line"].startswith("st "):
+                nontriv = fa.get("sessions", 0) >= 1 and fa.get("scan_frees", 0) > 0 and held
+                tot = run.cov.setdefault("stream_totals", {})
+                for k in ("sessions", "scan_frees", "teardown_frees", "app_refs", "lib_refs"):
+                    tot[k] = tot.get(k, 0) + fa.get(k, 0)
+                if m.get("kind") == "stream":
+                    run.hist("stream_conns", m["conns"])
             else:
                 nontriv = (fa.get("sessions", 0) >= 2 and
                            (fa.get("scan_frees", 0) + fa.get("evictions", 0) > 0 or held))
@@ -272,7 +283,7 @@ class Sink:
                 run.hist("max_idle_sessions", m["maxidle"])
                 run.hist("focus", m["focus"])
                 run.hist("teardown", "explicit" if m["explicit_free"] else "at end")
-            if not res.get("client"):
+            if not res.get("client") and not res["line"].startswith("st "):
                 tot = run.cov.setdefault("totals", {})
                 for k in ("scan_frees", "evictions", "teardown_frees", "sessions", "lib_refs", "app_refs"):
                     tot[k] = tot.get(k, 0) + fa.get(k, 0)
@@ -338,8 +349,8 @@ def main(run):
         "harness/common/valloc.h: pointer -> serial-number bookkeeping of the allocation log",
     ]
     run.assumptions = [
-        "UDP endpoint, one endpoint per context; DTLS HELLO/handshake sessions and TCP accept are "
-        "not driven",
+        "one endpoint per context (UDP, or CoAP over TCP on a unix-domain stream socket); DTLS "
+        "HELLO/handshake sessions are not driven",
         "'nothing is used after release' is observed (poisoned quarantine in the base variant, "
         "AddressSanitizer in the asan variant) on the explored histories, not proved",
         "allocations made with plain malloc (uthash tables, GnuTLS) are only seen by LeakSanitizer",
@@ -364,6 +375,13 @@ def main(run):
             yield ln, m
         for ln in sweep_lines(run.tier):
             yield ln, {"kind": "sweep"}
+        for ln in gen_sessions.stream_boundary_cases():
+            yield ln, {"kind": "stream-boundary"}
+        rs = tie.rng_for(run, "c12-stream")
+        for i in range(400 if run.tier == "quick" else 10000):
+            ln, m = gen_sessions.gen_stream_history(rs)
+            m["kind"] = "stream"
+            yield ln, m
         for ln in gen_sessions.client_boundary_cases():
             yield ln, {"kind": "client-boundary"}
         rc = tie.rng_for(run, "c12-client")
@@ -392,10 +410,12 @@ def main(run):
     nas = 250 if run.tier == "quick" else 6000
     as_lines = list(corpus) + gen_sessions.boundary_cases()
     ra = tie.rng_for(run, "c12-asan")
-    as_lines += gen_sessions.client_boundary_cases()
+    as_lines += gen_sessions.client_boundary_cases() + gen_sessions.stream_boundary_cases()
     while len(as_lines) < nas:
         if len(as_lines) % 5 == 4:
             ln, m = gen_sessions.gen_client_history(ra)
+        elif len(as_lines) % 5 == 3:
+            ln, m = gen_sessions.gen_stream_history(ra)
         else:
             ln, m = gen_sessions.gen_history(ra, stale_etag=True)
         if m["explicit_free"] and "relall free" not in ln:
